@@ -62,6 +62,7 @@ class CallGraph:
                             self.slot_targets.setdefault(("global", self.gkey(m.unit, g["name"])), set()).add(f)
                         # a pointer global initialised with &struct: handled below
         # (b) stores of function symbols into globals / fields
+        self._stored_slots = set()
         for f in prog.functions():
             for iid, ins in enumerate(f.insts):
                 if ins["op"] == "store":
@@ -81,10 +82,12 @@ class CallGraph:
                             s = self._slot_of_gep(f, d)
                             if s:
                                 self.slot_targets.setdefault(("field",) + s, set()).add(tgt)
+                                self._stored_slots.add(("field",) + s)
                     elif a[0] == "ce" and a[1] == "getelementptr":
                         s = self._slot_of_gep(f, a[3])
                         if s:
                             self.slot_targets.setdefault(("field",) + s, set()).add(tgt)
+                            self._stored_slots.add(("field",) + s)
 
     def _walk_init(self, c, path, out):
         if c[0] == "g":
@@ -121,6 +124,18 @@ class CallGraph:
                             return (sorted(t, key=lambda f: str(f.key)) if t else [], bool(t))
                 if a[0] == "ce" and a[1] == "getelementptr":
                     s = self._slot_of_gep(fn, a[3])
+                    base = a[2][0]
+                    if s and base[0] == "g":
+                        # a field of one specific vtable object: exactly its initialiser (if never stored to)
+                        gd = self.prog.global_def(fn, base[1])
+                        if gd is not None:
+                            ent = self.global_fnptr.get((gd[0], base[1]), {})
+                            tname = ent.get(tuple(s[1]))
+                            stored = ("field",) + s in self._stored_slots
+                            if tname is not None and not stored:
+                                t = self.prog.fn(tname, gd[0])
+                                if t is not None:
+                                    return ([t], True)
                     if s:
                         t = self.slot_targets.get(("field",) + s)
                         return (sorted(t, key=lambda f: str(f.key)) if t else [], bool(t))
